@@ -105,4 +105,22 @@ TEXT = {
         "design_ref": "DESIGN.md section 5, C17",
         "level_note": "trusted: reference resolver and identifier tables in harness/src/props/c17.rs.",
     },
+    "C05": {
+        "technique": "runtime crash/hang/allocation monitor: panic hook with overflow checks on, per-input CPU-time watchdog, counting global allocator, 'serialised form decodes again' oracle, over random, mutated-fixture and structure-aware hostile inputs; ASan and Miri repeats; libFuzzer+ASan target in /verif/fuzz for deeper exploration",
+        "level_text": 'exploration: 240k (quick) / 16M (thorough) inputs in three layers; each input is pushed through every decoding and detection entry point (slice and dribbling reader) and, whenever a map comes back, through iteration, formatting, lookups at token positions +-1 and extremes, every accessor at {0, n-1, n, n+1, 2^31, 2^32-1}, SourceView queries, function-name resolution against six minified texts, Hermes scope lookups, 16 in-memory rewrite option sets, flatten / flatten_and_rewrite with the same follow-ups, and serialise + decode. Any panic (incl. arithmetic overflow), abort, > 60 s CPU for one input, heap growth above 256 B/byte + 16 MiB or a serialised form that does not decode is a violation.',
+        "design_ref": "DESIGN.md section 5, C05",
+        "level_note": "trusted: the monitor's own instrumentation (panic hook, /proc CPU accounting, counting allocator). A clean run says nothing about inputs that were not produced; the >= 5% Ok-decode rate is enforced through required buckets.",
+    },
+    "C18": {
+        "technique": 'runtime monitor: reference line scanner vs locate_sourcemap_reference(_slice) on generated files (slice and chunked reader); own data URLs decoded back and rediscovered from an embedded comment; detection predicate on every serialised map kind',
+        "level_text": 'exploration: 300k (quick) / 10M (thorough) generated files and 60k / 2M maps; discovery must return the first line that begins with one of the two markers with the URL trimmed and the legacy flag right, nothing for look-alikes; for every regular map decode_data_url(to_data_url(m)) must be Ok and observation-equal to m, also after being embedded in a //# sourceMappingURL comment, located and loaded through get_embedded_sourcemap; is_sourcemap_slice must accept every serialised regular, index and Hermes map.',
+        "design_ref": "DESIGN.md section 5, C18",
+        "level_note": 'trusted: 10-line reference scanner; observation equality as in C01.',
+    },
+    "C20": {
+        "technique": 'fault injection + total reference parser: model-written bundles, every truncation and extreme field value enumerated, crate vs reference on recognition, counts, startup code, every module id, iterator; returned slices pointer-checked against the buffer; Miri, ASan and valgrind repeats on exact-size heap buffers',
+        "level_text": 'fault enumeration: 3k (quick) / 200k (thorough) model bundles, each with all of its truncations (every length), 8 extreme values in every 32-bit field, altered magic bytes and zero-length/non-zero-offset entries (~400 corruptions per bundle), plus random byte strings; the crate must agree with a total reference parser on recognition (complete 12-byte header + magic), module_count, startup_code, get_module for every id and a few past the table, and iter_modules; errors instead of panics; every returned slice must lie inside the input buffer (checked by address), and the memory-safety tools (Miri quick, ASan + valgrind thorough) watch the same executions.',
+        "design_ref": "DESIGN.md section 5, C20",
+        "level_note": "trusted: the independent bundle writer and total parser in harness/src/props/c20.rs (the writer's output is read back by the parser on every case).",
+    },
 }
